@@ -16,7 +16,7 @@ ALL_SHAPES = list(session.SHAPES)
 
 def _one_shape(args):
     """One worker: TLC (properties + graph export) once for the shape, then replay under each strategy."""
-    (shape, level, nbeh, seed, strategies, scratch_dir, workers) = args
+    (shape, level, nbeh, seed, strategies, scratch_dir, workers, nsim, sim_depth) = args
 
     class _Scratch:
         dir = scratch_dir
@@ -51,6 +51,15 @@ def _one_shape(args):
                 tr = d.run_behaviour(level + 3)
                 if i < 2:
                     traces.append(tr)
+            # deep behaviours: tlc -simulate (one concrete branch each, depth well beyond the exported graph)
+            if nsim:
+                cfg = session.cfg_for(shape, 99, props=True) + 'ACTION_CONSTRAINT StepProps\n'
+                sims, sres = tlc.simulate('PonySession', cfg, ctx.scratch, num=nsim, depth=sim_depth, seed=seed + 17 + j,
+                                          tag='sim-%s' % shape)
+                for b in sims:
+                    d.run_simulated(b)
+                out['sim_behaviours'] = len(sims)
+                out['sim_states'] = sres.generated
             out['t_replay'] = round(time.time() - t1, 1)
             out['stats'] = d.stats
             out['edges_visited'] = len(g.visited)
@@ -95,9 +104,11 @@ def run(ctx, prop, shapes=None, strategies=('default',), focus=None):
     shapes = shapes or (QUICK_SHAPES[prop] if quick else ALL_SHAPES)
     level = 4 if quick else 5
     nbeh = 1500 if quick else 8000
+    nsim = 250 if quick else 2500
     if len(strategies) > 1:
         nbeh = nbeh // 2
-    jobs = [(shape, level, nbeh, ctx.seed * 1000 + i * 10, tuple(strategies), ctx.scratch.dir, 4 if quick else 2) for i, shape in enumerate(shapes)]
+        nsim = nsim // 3
+    jobs = [(shape, level, nbeh, ctx.seed * 1000 + i * 10, tuple(strategies), ctx.scratch.dir, 4 if quick else 2, nsim, 14 if quick else 20) for i, shape in enumerate(shapes)]
     mp = multiprocessing.get_context('fork')
     with mp.Pool(min(len(jobs), 8)) as pool:
         results = [r for rs in pool.map(_one_shape, jobs) for r in rs]
@@ -154,6 +165,9 @@ def run(ctx, prop, shapes=None, strategies=('default',), focus=None):
         'graph_states_exported': sum(r['states'] for r in results),
         'graph_transitions_exported': sum(r['transitions'] for r in results),
         'graph_transitions_replayed': sum(r['edges_visited'] for r in results),
+        'simulated_deep_behaviours': sum(r.get('sim_behaviours', 0) for r in results),
+        'simulated_inconclusive': sum(r['stats'].get('sim_inconclusive', 0) for r in results),
+        'free_reads': sum(r['stats'].get('free_reads', 0) for r in results),
         'shapes': sorted(set(r['shape'] for r in results)), 'strategies': list(strategies),
         'max_level': level,
         'distinct_nontrivial_rule': rule,
